@@ -66,11 +66,13 @@ def inline_helpers(body, src, depth=2):
 def inline_consts(src):
     """Replace uses of simple named constants (`const NAME: T = <literal or path expression>;`) by their value, so
     that a magic value given a name is still seen where it is used."""
-    for m in list(re.finditer(r"\bconst (\w+): [\w:<>]+ = ([^;{}]+);", src)):
+    for _ in range(40):
+        m = re.search(r"(?:pub(?:\(crate\))? )?\bconst ([A-Z]\w*): [\w:<>]+ = ([^;{}\n]+);\n?", src)
+        if not m:
+            break
         name, expr = m.group(1), m.group(2).strip()
         body = src[:m.start()] + src[m.end():]
-        body = re.sub(r"\b%s\b" % re.escape(name), expr, body)
-        src = body
+        src = re.sub(r"\b%s\b" % re.escape(name), expr, body)
     return src
 
 
@@ -137,6 +139,16 @@ def extract(missing):
             c = re.sub(r"\s+", " ", m.group(1)).strip()
             if " == " in c:
                 cmp_ = c.replace(" == ", " != ")
+    if cmp_ is None:
+        m = re.search(r"if !\s*(?:/\*inlined \w+\*/\s*\{[^{}]*\}\s*)?(\w+)\(\s*([\w.]+(?:\(\))?),\s*([\w.]+(?:\(\))?)\s*\) \{\s*"
+                      r"return Err\(anyhow!\(\"Header checksum mismatch\"\)\)", ca, re.S)
+        hb = fn_body(clone, m.group(1)) if m else None
+        hs = re.search(r"fn %s\(\s*(\w+): &HashSum,\s*(\w+): &HashSum\s*\) -> bool" % re.escape(m.group(1)), clone) if m else None
+        if m and hb and hs:
+            inner = re.sub(r"\s+", " ", hb.strip()[1:-1]).strip()
+            a, b = hs.group(1), hs.group(2)
+            if inner in ("%s.slice() == %s.slice()" % (a, b), "%s.slice() == %s.slice()" % (b, a)):
+                cmp_ = "%s.slice() != %s.slice()" % (m.group(2), m.group(3))
     f["pinComparison"] = cmp_ or missing("header pin comparison")
     sides = sorted(x.strip() for x in (cmp_ or "").split(" != "))
     f["pinComparesFullBytes"] = sides == ["archive.header_checksum().slice()", "expected_checksum.slice()"]
@@ -232,15 +244,20 @@ def extract(missing):
     f["decompressOutputLimited"] = limited
     # 8. try_init refuses a descriptor whose END offset does not fit 64 bits (F12 repair)
     ti = fn_body(arch, "try_init") or ""
+    ti_in = inline_helpers(ti, arch)
     f["chunkEndOffsetChecked"] = bool(re.search(
-        r"\.checked_add\(dict\.archive_offset\)\s*\.filter\(\|(\w+)\| \1\.checked_add\(u64::from\(dict\.archive_size\)\)\.is_some\(\)\)\s*"
+        r"\.checked_add\((\w+)\.archive_offset\)\s*\.filter\(\|(\w+)\| \2\.checked_add\(u64::from\(\1\.archive_size\)\)\.is_some\(\)\)\s*"
         r"\.ok_or_else\(\|\| ArchiveError::invalid_archive\(", ti))
     # 9. validation added by F13-F20: the header must end within 64 bits; the chunks in rebuild order add up
     # to the declared source size; the hash length is 1..=64; a decoded chunk has exactly its declared size;
     # --verify-output hashes the first source-size bytes only; the library writer flushes its temp file before
     # reading it back; an over-long --verify-header value is refused
     f["headerEndChecked"] = bool(re.search(
-        r"\.checked_add\(8 \+ 64\)\s*\.filter\(\|(\w+)\| \1\.checked_add\(header::PRE_HEADER_SIZE\)\.is_some\(\)\)\s*\.ok_or_else\(", ti))
+        r"\.checked_add\(8 \+ 64\)\s*\.filter\(\|(\w+)\| \1\.checked_add\(header::PRE_HEADER_SIZE\)\.is_some\(\)\)\s*\.ok_or_else\(", ti)) or bool(
+        # the same two checked additions in a same-file helper whose `None` the caller turns into the error
+        re.search(r"let (\w+) = \w+\.checked_add\(8 \+ 64\)\?;\s*match \1\.checked_add\(header::PRE_HEADER_SIZE\) \{\s*"
+                  r"Some\(\w+\) => Some\(\1\),\s*None => None,?\s*\}", ti_in) and
+        re.search(r"= (\w+)\(dictionary_size\)\s*\.ok_or_else\(\|\| ArchiveError::invalid_archive\(", ti))
     f["sourceSizeSumChecked"] = bool(re.search(
         r"let (\w+) = source_order\.iter\(\)\.try_fold\(0u64, \|(\w+), &(\w+)\| \{\s*\2\.checked_add\(u64::from\(archive_chunks\[\3\]\.source_size\)\)\s*\}\);"
         r"\s*if \1 != Some\(dictionary\.source_total_size\) \{\s*return Err\(", ti))
@@ -264,10 +281,13 @@ def extract(missing):
     f["chunkLengthChecked"] = bool(re.search(r"let source_size = self\.source_size;", dbody)) and \
         bool(re.search(r"if chunk\.len\(\) != source_size \{\s*return Err\(", dbody)) and dbody.rstrip().endswith("Ok(chunk)\n    }")
     fc = fn_body(clone, "file_checksum") or ""
+    mloop = re.search(
+        r"let mut (?P<left>\w+) = size;\s*while (?P=left) > 0 \{\s*"
+        r"let (?P<want>\w+) = (?:std::cmp::min\((?P=left), (?P<buf>\w+)\.len\(\) as u64\)|(?P=left)\.min\((?P<buf2>\w+)\.len\(\) as u64\)) as usize;\s*"
+        r"let (?P<rc>\w+) = file\.read\(&mut (?P<buf3>\w+)\[0\.\.(?P=want)\]\)\.await\?;", fc)
     f["verifyHashesSourceSizeOnly"] = bool(re.search(r"file_checksum\(&mut \w+, archive\.total_source_size\(\)\)", ca)) and \
-        bool(re.search(r"let mut left = size;\s*while left > 0 \{\s*let want = std::cmp::min\(left, buffer\.len\(\) as u64\) as usize;"
-                       r"\s*let rc = file\.read\(&mut buffer\[0\.\.want\]\)\.await\?;", fc)) and \
-        bool(re.search(r"left -= rc as u64;", fc))
+        bool(mloop) and (mloop.group("buf") or mloop.group("buf2")) == mloop.group("buf3") and \
+        bool(re.search(r"%s -= %s as u64;" % (re.escape(mloop.group("left")), re.escape(mloop.group("rc"))), fc))
     la = fn_body(lib, "create_archive") or ""
     mfl = [m.start() for m in re.finditer(r"temp_file\s*\.flush\(\)\s*\.await", la)]
     mrw = re.search(r"temp_file\s*\.rewind\(\)", la)
@@ -275,7 +295,7 @@ def extract(missing):
     f["libTempFlushedBeforeRewind"] = bool(mfl and mrw and mwr and mwr[-1] < mfl[-1] < mrw.start())
     cli_rs = inline_consts(strip_comments(rd("src/cli.rs")))
     ph = inline_helpers(fn_body(cli_rs, "parse_hash_sum") or "", cli_rs)
-    f["pinLengthChecked"] = bool(re.search(r"if (?:(\w+)\.len\(\) > HashSum::MAX_LEN|HashSum::MAX_LEN < (\w+)\.len\(\)) \{\s*return Err\(", ph)) and \
+    f["pinLengthChecked"] = bool(re.search(r"if (?:(\w+)\.len\(\) > HashSum::MAX_LEN|HashSum::MAX_LEN < (\w+)\.len\(\)) \{\s*(?:return )?Err\(", ph)) and \
         bool(re.search(r"\.value_parser\(parse_hash_sum\)", cli_rs))
     # 10. the command line refuses chunk sizes that do not fit the 32 bit fields of the dictionary (F21 repair)
     pco = fn_body(cli_rs, "parse_chunker_opts") or ""
@@ -303,7 +323,7 @@ def extract(missing):
         for t in nums:
             mult *= int(t.replace("_", ""))
         units.append((m.group(1), mult))
-    f["sizeUnits"] = units or missing("unit arms of parse_human_size")
+    f["sizeUnits"] = sorted(units, key=lambda e: (-e[1], e[0])) or missing("unit arms of parse_human_size")
 
     def arg_block(name):
         m = re.search(r'Arg::new\("%s"\)' % re.escape(name), cli_rs)
@@ -335,8 +355,8 @@ def extract(missing):
     f["txtRollSum"] = "RollSum" if "RollSum" in hvals and re.search(r'"RollSum"\)?\s*=>\s*chunker::Config::RollSum', pcc) else missing("RollSum option value")
     f["txtBuzHash"] = "BuzHash" if "BuzHash" in hvals and re.search(r'"BuzHash"\)?\s*=>\s*chunker::Config::BuzHash', pcc) else missing("BuzHash option value")
     pcm = fn_body(cli_rs, "parse_compression") or ""
-    f["txtBrotli"] = "brotli" if re.search(r'"brotli"\s*=>\s*Some\(Compression::brotli\(', pcm) else missing("brotli option value")
-    f["txtNone"] = "none" if re.search(r'"none"\s*=>\s*None', pcm) else missing("none option value")
+    f["txtBrotli"] = "brotli" if re.search(r'"brotli"\s*=>\s*(?:Some\()?Compression::brotli\(', pcm) else missing("brotli option value")
+    f["txtNone"] = "none" if re.search(r'"none"\s*=>\s*None|== "none" \{\s*return Ok\(None\)', pcm) else missing("none option value")
     m = re.search(r"\.value_parser\(value_parser!\(u32\)\.range\((\d+)\.\.=\(HashSum::MAX_LEN as i64\)\)\)", arg_block("hash-length"))
     f["cliHashLengthMin"] = int(m.group(1)) if m else missing("range of --hash-length")
     cz = strip_comments(rd("bitar/src/compression.rs"))
@@ -356,6 +376,9 @@ def bool_expr(src):
     for t in toks:
         if re.fullmatch(r"\w+\.(force_create|seed_output|verify_output)", t):
             t = "opts." + t.split(".")[1]
+        elif t in ("force_create", "seed_output", "verify_output"):
+            # the flag handed to a same-file helper under its own name
+            t = "opts." + t
         if t in FLAG_NAMES:
             out.append(FLAG_NAMES[t])
         elif t in ("||", "&&", "!", "(", ")"):
